@@ -6,6 +6,7 @@ mod c13;
 mod c17;
 mod dump_gen;
 mod load;
+mod modelops;
 mod modops;
 mod sx;
 
@@ -27,6 +28,9 @@ fn main() {
         let case = Sx::parse(&line);
         let res = match kind.as_str() {
             "C03" => c03::run(&case),
+            "CHECK" => modelops::run_check(&case),
+            "MERGE" => modelops::run_merge(&case),
+            "CLEANUP" => modelops::run_cleanup(&case),
             "C12" => c12::run(&case),
             "C13" => c13::run(&case),
             "C17" => c17::run(&case),
